@@ -20,13 +20,15 @@ pub struct Stub {
     pub put_ops: usize,                // PutObject operations (an SDK attempt number 1 starts one)
     pub fail_op_nth: Option<usize>,    // fail every SDK attempt of the nth PutObject operation
     pub fail_op_always: bool,          // ... and of every operation after it
+    pub fail_path_nth: Option<usize>,  // every PUT of the nth distinct object path of the case is refused, for ever
+    pub put_paths: Vec<String>,
 }
 
 lazy_static::lazy_static! {
     pub static ref STUB: Arc<Mutex<Stub>> = Arc::new(Mutex::new(Stub {
         objects: BTreeMap::new(), log: vec![], puts: 0, gets: 0,
         fail_put_nth: None, fail_put_always: false, fail_get_once: false,
-        put_ops: 0, fail_op_nth: None, fail_op_always: false,
+        put_ops: 0, fail_op_nth: None, fail_op_always: false, fail_path_nth: None, put_paths: vec![],
     }));
 }
 
@@ -116,7 +118,11 @@ pub fn start_stub() -> u16 {
                     st.put_ops += 1;
                 }
                 let (n, opn) = (st.puts, st.put_ops);
-                let fail = match st.fail_put_nth {
+                if !st.put_paths.contains(&path) {
+                    st.put_paths.push(path.clone());
+                }
+                let path_no = st.put_paths.iter().position(|x| *x == path).unwrap() + 1;
+                let fail = st.fail_path_nth == Some(path_no) || match st.fail_put_nth {
                     Some(k) => n == k || (st.fail_put_always && n > k),
                     None => false,
                 } || match st.fail_op_nth {
@@ -212,6 +218,8 @@ pub fn main(args: &[String]) {
             st.put_ops = 0;
             st.fail_op_nth = case["fail_op_nth"].as_u64().map(|x| x as usize);
             st.fail_op_always = case["fail_op_always"].as_bool() == Some(true);
+            st.fail_path_nth = case["fail_path_nth"].as_u64().map(|x| x as usize);
+            st.put_paths.clear();
         }
         crate::seq::run_case(&case, workdir, &mut out, n);
     }
